@@ -123,7 +123,7 @@ def check_range_builders(ctx, facts):
             ctx.saw_body(clo)
             sibs[common.short_fn(clo.name).split("::")[-1]] = (clo, fc)
     if len(sibs) < 3:
-        ctx.floor("C16.2", "read-range builders of batch_read_for_topic", len(sibs), 3)
+        ctx.floor("C16.2", "read-range builders of batch_read_for_topic", len(sibs), 2)
         return
     for n in sorted(sibs):
         b, fs = sibs[n]
@@ -162,7 +162,7 @@ def check_dispatch(ctx, facts):
                 ctx.violate("C16.3", fn, "non-exhaustive-backend-dispatch", b.relfile, t["line"], "the backend match in %s has a catch-all or merges the variants" % fn)
         if not found:
             ctx.anchor_missing("C16.3", "match on StorageImpl in " + fn)
-    ctx.floor("C16.3", "backend dispatch sites", n, 4)
+    ctx.floor("C16.3", "backend dispatch sites", n, 2)
     # flush arms
     fl = facts.body("storage::StorageImpl::flush")
     calls = {callee_name(s.node) for s in fl.calls()}
